@@ -1438,7 +1438,7 @@ class Generator:
                     op["columns"] = op["columns"][0]
         if self.rng.random() < 0.2:
             op["sort"] = False
-        if self.rng.random() < 0.15:
+        if self.rng.random() < 0.3:
             op["dropna"] = False
         names = ["split_out", "split_every", "shuffle_method"]
         if op.get("fn") == "size" or op.get("observed") is False:
